@@ -2,7 +2,7 @@ use std::collections::HashMap;
 use std::{iter, ops};
 
 use crate::nodes::{
-    DoStatement, Expression, FunctionCall, Identifier, Prefix, Statement, TypedIdentifier,
+    Block, DoStatement, Expression, FunctionCall, Identifier, Prefix, Statement, TypedIdentifier,
     VariableAssignment,
 };
 use crate::process::{Evaluator, IdentifierTracker, NodeProcessor};
@@ -116,10 +116,17 @@ impl<Args, T: CallMatch<Args>> NodeProcessor for RemoveFunctionCallProcessor<Arg
                     .matches(&self.identifier_tracker, call.get_prefix())
             {
                 *statement = if self.preserve_args_side_effects {
-                    expressions_as_statement(preserve_arguments_side_effects(
+                    match expressions_as_statement(preserve_arguments_side_effects(
                         &self.evaluator,
                         call.get_arguments(),
-                    ))
+                    )) {
+                        // a bare `local _ = ...` would shadow a variable named `_` in the
+                        // statements that follow
+                        Statement::LocalAssign(assign) => {
+                            DoStatement::new(Block::default().with_statement(assign)).into()
+                        }
+                        other => other,
+                    }
                 } else {
                     DoStatement::default().into()
                 };
